@@ -86,6 +86,20 @@ def gen_run(rng, cfg):
     size = rng.choice([1, 2, 3, 4, 6, 9])
     depth = rng.choice([1, 2, 2, 3])
     sloppy = rng.choice([0.0, 0.02, 0.1, 0.3])
+    # swarm "style": which long-lived object the history concentrates on
+    style = _pick_weighted(rng, [("mixed", 5), ("generator", 2), ("lexer", 1), ("parser", 2)])
+    main_gen = (rng.random() < 0.4, rng.choice(["plain", "plain", "plain", "Upper", "UpperMore"]))
+    if style == "generator":
+        mix = {"parse": 0.1, "lex": 0.0, "gen": 1.0, "parse_file": 0.0}
+        n_ops = max(n_ops, rng.choice([3, 4, 6, 8, 12]))
+        size = rng.choice([3, 4, 6, 9])
+        depth = rng.choice([2, 3, 3])
+        sloppy = rng.choice([0.0, 0.0, 0.02])
+    elif style == "lexer":
+        mix = {"parse": 0.15, "lex": 1.0, "gen": 0.0, "parse_file": 0.0}
+        n_ops = max(n_ops, rng.choice([3, 4, 6, 8]))
+    elif style == "parser":
+        mix = {"parse": 1.0, "lex": 0.0, "gen": 0.0, "parse_file": 0.2}
     pg = W.ProgGen(rng, actor=None, size=size, depth=depth, sloppy=sloppy, marks=False)
     pool = []
     for _ in range(rng.randrange(2, 6)):
@@ -194,8 +208,11 @@ def gen_run(rng, cfg):
                     dirty_next = True
         else:  # gen
             op["select"] = [rng.choice(GEN_SELECT), rng.randrange(8), rng.sample(GEN_SELECT[1:10], 3)]
-            op["reduce"] = rng.random() < 0.4
-            op["gencls"] = rng.choice(["plain", "plain", "plain", "Upper", "UpperMore"])
+            if rng.random() < 0.8:
+                op["reduce"], op["gencls"] = main_gen  # keep the reuse chain on one generator
+            else:
+                op["reduce"] = rng.random() < 0.4
+                op["gencls"] = rng.choice(["plain", "plain", "plain", "Upper", "UpperMore"])
             op["filename"] = "g.c"
         op["items"] = items
         if fault is not None:
@@ -208,7 +225,7 @@ def gen_run(rng, cfg):
         "check_fresh": True,
         "policy": {"kind": "rtc"},
         "actors": [{"reuse": True, "ops": ops}],
-        "swarm": {"faulty": faulty, "enabled": enabled, "size": size, "depth": depth, "sloppy": sloppy},
+        "swarm": {"faulty": faulty, "enabled": enabled, "size": size, "depth": depth, "sloppy": sloppy, "style": style},
     }
     return spec
 
